@@ -179,7 +179,8 @@ def run(chk):
                 if bad[0] == 'driver':
                     chk.violation('driver', bad[1] + ', ' + where, None)
                 else:
-                    chk.violation(kind, bad[1] + ', ' + where, rp, key=bad[0])
+                    geo = bad[0].split()[0] in ('vertex', 'convex', 'area', 'orientation')
+                    chk.violation(kind, bad[1] + ', ' + where, rp, key=bad[0] + (' cluster' if geo and r.family.startswith('cluster') else ''))
             else:
                 chk.traces += 1
                 if len(faces) >= 5:
